@@ -223,6 +223,14 @@ def case_invert(rec, c):
     P = pp()
     rank, L, inplace, f1 = c['rank'], c['length'], c['inplace'], c['f1']
     A = mk(rank, L, f1, 0.1 + c.get('salt', 0))
+    if c.get('shape') == 'nearsym':
+        # symmetric up to a few parts in 1e6 (e.g. a symmetric matrix after a round trip with rounding, or slightly
+        # different (a,b)/(b,a) data): still an ordinary matrix whose inverse is the ordinary inverse
+        sym = 0.5 * (A.data + np.transpose(A.data, (0, 2, 1)))
+        noise = np.sin(1.3 * np.arange(sym.size)).reshape(sym.shape)
+        A.data = sym * (1.0 + 4e-6 * noise)
+    elif c.get('shape') == 'sym':
+        A.data = 0.5 * (A.data + np.transpose(A.data, (0, 2, 1)))
     A0 = A.data.copy()
     rec.state()
     rec.trans()
@@ -356,6 +364,22 @@ def case_copy_keys(rec, c):
                         rec.fail(c, '%s (Identity %s, array %s) differs from the matrix-by-matrix result' % (order, fI, fA), tags('value', op='identity'))
             elif raised is None:
                 rec.fail(c, '%s between an Identity flagged %s and an array flagged %s was not refused' % (order, fI, fA), tags('space', op='identity'))
+    # integer labels that are not their own positions: a key is a label, never a position
+    if rank >= 2:
+        ilab = list(range(rank))[1:] + [0]            # [1, 2, ..., 0]
+        Mi = P.MatrixArray(length=L, rank=rank, data=gen(rank, L, 0.4), types=ilab)
+        bi = Mi.data.copy()
+        rec.trans()
+        oki = True
+        for a, b in itertools.product(range(rank), repeat=2):
+            oki = oki and np.array_equal(Mi[ilab[a], ilab[b]], bi[:, a, b])
+        vv = np.arange(L, dtype=float) + 0.75
+        Mi[ilab[0], ilab[rank - 1]] = vv
+        ei = bi.copy()
+        ei[:, 0, rank - 1] = vv
+        ei[:, rank - 1, 0] = vv
+        if not oki or not np.array_equal(Mi.data, ei):
+            rec.fail(c, 'MatrixArray with integer type labels %r: name-keyed access treats a label as a position' % (ilab,), tags('value', op='typemap'))
     # a second array with the same names in another order is alive: name-keyed access of each uses its own order
     if rank >= 2:
         M1 = P.MatrixArray(length=L, rank=rank, data=gen(rank, L, 0.4), types=list(types))
@@ -544,7 +568,7 @@ def case_seq(rec, c):
     rec.outcome(core.digest([rank, L, c['ops'], A.data.ravel()[:5]], 7))
 
 
-IDENT_OPS = ['+=s', '*=s', '-=M', 'set', 'setM', 'inv', 'new', 'oop']
+IDENT_OPS = ['+=s', '*=s', '-=M', 'set', 'setM', 'inv', 'new', 'oop', 'dot?', 'inv?']
 
 
 def case_ident_seq(rec, c):
@@ -594,6 +618,28 @@ def case_ident_seq(rec, c):
                              % (c['ops'][:n + 1], L, rank), tags('alias', op='identity', seq=True))
                     return
                 I3.data[...] = 11.0                # and it is the caller's own
+            elif op == 'dot?':
+                R = I1.dot(M)
+                want = ref_dot(ref, M0)
+                if not float(np.max(np.abs(R.data - want))) <= 1e-9 * max(1.0, float(np.max(np.abs(want)))):
+                    rec.fail(hist, 'history %s: I.dot(M) with the (modified) IdentityMatrixArray is not the product of its current contents with M' % (c['ops'][:n + 1],),
+                             tags('value', op='identity', seq=True))
+                    return
+                R2 = I1 @ M
+                if not float(np.max(np.abs(R2.data - want))) <= 1e-9 * max(1.0, float(np.max(np.abs(want)))):
+                    rec.fail(hist, 'history %s: I @ M with the (modified) IdentityMatrixArray is not the product of its current contents with M' % (c['ops'][:n + 1],),
+                             tags('value', op='identity', seq=True))
+                    return
+            elif op == 'inv?':
+                if not max(float(np.linalg.cond(ref[l])) for l in range(L)) < 1e4:
+                    rec.count('pruned_ill_conditioned')
+                    return
+                R = I1.invert()
+                want = np.array([np.linalg.inv(ref[l]) for l in range(L)])
+                if not float(np.max(np.abs(R.data - want))) <= 1e-8 * max(1.0, float(np.max(np.abs(want)))):
+                    rec.fail(hist, 'history %s: invert() of the (modified) IdentityMatrixArray is not the inverse of its current contents' % (c['ops'][:n + 1],),
+                             tags('value', op='identity', seq=True))
+                    return
             elif op == 'oop':
                 D = I2 - M
                 if not np.array_equal(D.data, eye - M0):
@@ -641,6 +687,8 @@ def _worker(item):
                     case_dot(rec, {'kind': 'dot', 'rank': rank, 'length': L, 'how': how, 'f1': f1, 'f2': f2})
                 for inplace, f1 in itertools.product((False, True), FLAGS):
                     case_invert(rec, {'kind': 'invert', 'rank': rank, 'length': L, 'inplace': inplace, 'f1': f1})
+                for inplace, shape in itertools.product((False, True), ('sym', 'nearsym')):
+                    case_invert(rec, {'kind': 'invert', 'rank': rank, 'length': L, 'inplace': inplace, 'f1': 'Fourier', 'shape': shape})
                 case_copy_keys(rec, {'kind': 'keys', 'rank': rank, 'length': L})
         else:
             # E2 shard: all sequences of length <= depth that start with `first`
